@@ -433,7 +433,7 @@ def gen_cases():
             for kind in KINDS:
                 for pre in PRES:
                     for name in (['a'] if mode == 'c' else ['a.bz2']):
-                        if q and rng.random() > 0.5:
+                        if q and rng.random() > 0.4:
                             continue
                         cases.append(mkcase(rng, mode, fl, kind, pre, name,
                                             rng.choice(INMODES[:4])))
@@ -444,7 +444,7 @@ def gen_cases():
                 continue
             for name in NAMES:
                 for pre in ('none', 'file'):
-                    if q and rng.random() > 0.45:
+                    if q and rng.random() > 0.35:
                         continue
                     kind = 'regular' if rng.random() < 0.8 else \
                         rng.choice(['symlink', 'hardlink'])
@@ -455,14 +455,14 @@ def gen_cases():
         for inmode in INMODES:
             for fl in ('', 'k', 'f', 'kf', 'c'):
                 for kind in ('regular', 'symlink', 'hardlink'):
-                    if q and rng.random() > 0.6:
+                    if q and rng.random() > 0.5:
                         continue
                     cases.append(mkcase(rng, mode, fl, kind,
                                         rng.choice(['none', 'none', 'file']),
                                         rng.choice(['a', 'a.tbz', 'b.bz2', 'sub/b']),
                                         inmode))
     # 4. random corners
-    for _ in range(200 if q else 6000):
+    for _ in range(150 if q else 6000):
         cases.append(mkcase(rng, rng.choice('cd'), rng.choice(FLAGSETS),
                             rng.choice(KINDS), rng.choice(PRES),
                             rng.choice(NAMES), rng.choice(INMODES)))
